@@ -12,6 +12,7 @@ from ..lib import load
 from ..poly import Poly, BranchOnValue
 
 ID = "C18"
+SENTINEL = True      # prelude cases (factory objects used and moved) are judged by the global-state sentinel here
 HASH_ADMISSION = False
 BUDGET = {"quick": 40000, "thorough": 1000000}
 SOFT = {"quick": 60, "thorough": 300}
